@@ -13,8 +13,11 @@ package kcp
 import (
 	"bytes"
 	"errors"
+	"fmt"
+	"io"
 	"net"
 	"os"
+	"runtime"
 	"sync"
 	"sync/atomic"
 	"testing"
@@ -614,6 +617,62 @@ func locksetScenarioReadErr(t testing.TB, k *locksetCounters, rounds, nsess int)
 	}
 }
 
+// scenario "closed": a session closed with a half-read message is drained by its owner (Read after
+// Close hands out what was already received) while an unrelated session of the same process keeps
+// writing: nothing the closed session still reads from may have gone back to the shared buffer pool.
+func locksetScenarioClosed(t testing.TB, k *locksetCounters, rounds int) {
+	p := locksetNewPair(t, locksetCfg{name: "closed", cipher: "nil"}, k)
+	defer p.l.Close()
+	defer p.client.Close()
+	defer p.server.Close()
+	go io.Copy(io.Discard, p.server)
+	msg := make([]byte, 1200)
+	for r := 0; r < rounds; r++ {
+		c := locksetDial(t, p, fmt.Sprintf("victim%d", r), uint32(0x5000+r))
+		c.SetNoDelay(1, 10, 2, 1)
+		c.Write(msg)
+		p.l.SetDeadline(time.Now().Add(5 * time.Second))
+		v, err := p.l.AcceptKCP()
+		k.add("L.AcceptKCP", 1)
+		if err != nil {
+			t.Fatalf("closed scenario: accept: %v", err)
+		}
+		head := make([]byte, 16)
+		v.SetReadDeadline(time.Now().Add(5 * time.Second))
+		if _, err := v.Read(head); err != nil {
+			t.Fatalf("closed scenario: first read: %v", err)
+		}
+		k.add("Read", 1)
+		v.Close()
+		k.add("Close", 1)
+		var wg sync.WaitGroup
+		wg.Add(2)
+		go func() { // the owner drains its closed session
+			defer wg.Done()
+			buf := make([]byte, 100)
+			for {
+				_, err := v.Read(buf)
+				k.add("Read", 1)
+				if err != nil {
+					return
+				}
+				runtime.Gosched()
+			}
+		}()
+		go func() { // an unrelated session writes
+			defer wg.Done()
+			for i := 0; i < 12; i++ {
+				p.client.SetWriteDeadline(time.Now().Add(2 * time.Second))
+				p.client.Write(msg)
+				k.add("Write", 1)
+			}
+		}()
+		wg.Wait()
+		c.Close()
+		k.add("Close", 1)
+	}
+}
+
 func TestVerifC14(t *testing.T) {
 	rep := newReport("C14")
 	k := &locksetCounters{c: make([]atomic.Int64, len(locksetOpNames))}
@@ -679,6 +738,13 @@ func TestVerifC14(t *testing.T) {
 			n = 3000
 		}
 		account("ciphers:Encrypt-vs-Decrypt-on-one-BlockCrypt", func() { locksetScenarioCiphers(t, k, n) })
+	}
+	if only == "" || only == "closed" {
+		n := 12
+		if vThorough() {
+			n = 80
+		}
+		account("closed:Read-after-Close-vs-another-session", func() { locksetScenarioClosed(t, k, n) })
 	}
 	if only == "" || only == "readerr" {
 		rounds, nsess := 8, 60
